@@ -455,8 +455,9 @@ MiniOutcome sched_run(const J& c) {
         scripts.push_back(ts);
     }
     int ncallers = (int)scripts.size();
-    if (ncallers + 1 > MAXTASK) {
+    if (ncallers + 1 > MAXTASK || 2 * ncallers > MAXVP) {
         o.detail = "invalid: too many tasks";
+        ses.finish();
         return o;
     }
     // expectations from the model + sequential execution first
